@@ -17,6 +17,7 @@ import (
 	"go/token"
 	"math"
 	"math/big"
+	"os"
 	"strings"
 )
 
@@ -253,9 +254,41 @@ func toInt(a sym, signed bool) sym {
 	panic(unsupported("toInt of a non-integer"))
 }
 
-func intBinop(op token.Token, a, b sym) value {
+// bvOfInt / intOfBV: an Int-encoded Go integer as the 64-bit pattern Go computes bit operations
+// on, and back (two's complement for signed operands).
+func bvOfInt(t string) string { return "((_ int2bv 64) " + t + ")" }
+
+func intOfBV(t string, signed bool) string {
+	u := "(bv2int " + t + ")"
+	if !signed {
+		return u
+	}
+	return "(ite (>= " + u + " 9223372036854775808) (- " + u + " 18446744073709551616) " + u + ")"
+}
+
+func intBinop(op token.Token, a, b sym, signed bool) value {
 	f := ""
 	switch op {
+	case token.AND, token.OR, token.XOR, token.AND_NOT, token.SHR:
+		if os.Getenv("GOSYM_INTBITS") == "" {
+			// (int2bv/bv2int queries take z3 minutes each -- measured on a seeded change --, so
+			// the exact-grid mode declines bit operations; the thorough tier's bit-vector mode has them)
+			break
+		}
+		// bit operations: on the 64-bit two's-complement pattern (sign extension makes the result
+		// right for every narrower Go type as well; none of these can leave the operand type's range)
+		x, y := bvOfInt(a.t), bvOfInt(b.t)
+		bop := map[token.Token]string{token.AND: "bvand", token.OR: "bvor", token.XOR: "bvxor"}[op]
+		switch op {
+		case token.AND_NOT:
+			return sym{sInt, 0, intOfBV("(bvand "+x+" (bvnot "+y+"))", signed)}
+		case token.SHR:
+			if signed {
+				return sym{sInt, 0, intOfBV("(bvashr "+x+" "+y+")", true)}
+			}
+			return sym{sInt, 0, intOfBV("(bvlshr "+x+" "+y+")", false)}
+		}
+		return sym{sInt, 0, intOfBV("("+bop+" "+x+" "+y+")", signed)}
 	case token.LSS:
 		f = "<"
 	case token.LEQ:
